@@ -94,6 +94,21 @@ pub fn sweep(out: &mut dyn Write, seed: u64, o: &Opts) {
             }
         }
     }
+    // 0b. boundary inputs: Base256 runs around the 1-/2-byte length field limits (249/250, 1555),
+    // with and without a following run in another mode, single symbols that are exactly full
+    for l in [1usize, 2, 248, 249, 250, 251, 252, 499, 500, 501, 750, 1000, 1553, 1554, 1555, 1556] {
+        for tail in [&b""[..], b"AB", b"123456", b"a"] {
+            for modes in [63u8, 32, 33, 48] {
+                if o.ascii_enabled_only && modes & 1 == 0 { continue; }
+                let mut d: Vec<u8> = (0..l).map(|i| 0x80 + (i % 0x7f) as u8).collect();
+                d.extend_from_slice(tail);
+                for mask in [default_mask(), (1u64 << 48) - 1, tight_single(&mut rng, d.len() * 2 / 2)] {
+                    let c = Case { data: d.clone(), modes, mask, macros: true, fnc1: false, eci: None };
+                    emit_case(out, o, &c, &mut hist);
+                }
+            }
+        }
+    }
     // 1. exhaustive short strings over the class alphabet x sampled configurations
     if o.short_len > 0 {
         let strs = short_strings(o.short_len);
